@@ -1,9 +1,11 @@
 package props
 
 import (
-	"strings"
 	"fmt"
+	"strings"
 	"time"
+
+	"github.com/uhn/ggql/pkg/ggql"
 
 	"verif/mc/core"
 	"verif/mc/world"
@@ -401,5 +403,117 @@ func runC09(c *core.Ctx) {
 			}
 		}
 	}
-	c.R.Bound = "complete table 49 x 2 x 3 x 3 x configurations; the same for selections directly on a union / interface container and for __typename; the selection written twice (9 x 9 directive states x 3 kinds x 2 spacings); + all ordered pairs of 9 variable maps (supplied / omitted) on one parsed executable"
+	// ---- conditions on the payload of subscription events: the request is resolved once, its selection is evaluated again for
+	// every event with the variables of the request as they were then (given, or left to their defaults). Complete table:
+	// directive x {literal, variable given, variable left to its default} x value, on a field and on an inline fragment, for
+	// two variables at once; one event published; the payload holds exactly the selections the formula keeps.
+	{
+		type src struct {
+			name string
+			text string // the condition as written
+			decl string // variable declaration ("" = none)
+			vars map[string]interface{}
+			val  bool
+		}
+		srcs := func(vn string) []src {
+			return []src{
+				{"literal-true", "true", "", nil, true}, {"literal-false", "false", "", nil, false},
+				{"variable-given-true", "$" + vn, "$" + vn + ": Boolean", map[string]interface{}{vn: true}, true},
+				{"variable-given-false", "$" + vn, "$" + vn + ": Boolean", map[string]interface{}{vn: false}, false},
+				{"variable-default-true", "$" + vn, "$" + vn + ": Boolean = true", nil, true},
+				{"variable-default-false", "$" + vn, "$" + vn + ": Boolean = false", nil, false},
+				{"variable-given-over-default", "$" + vn, "$" + vn + ": Boolean = true", map[string]interface{}{vn: false}, false},
+			}
+		}
+		var sidx int64
+		for _, d1 := range []string{"skip", "include"} {
+			for _, s1 := range srcs("p") {
+				for _, d2 := range []string{"skip", "include"} {
+					for _, s2 := range srcs("q") {
+						for _, prepared := range []bool{false, true} {
+							sidx++
+							if !c.OwnsIdx(1<<42 + sidx) {
+								continue
+							}
+							c.Eval()
+							c.R.Distinct++
+							c.Nontrivial()
+							var decls []string
+							vars := map[string]interface{}{}
+							for _, sx := range []src{s1, s2} {
+								if sx.decl != "" {
+									decls = append(decls, sx.decl)
+								}
+								for k, v := range sx.vars {
+									vars[k] = v
+								}
+							}
+							head := "subscription S"
+							if len(decls) > 0 {
+								head += "(" + strings.Join(decls, ", ") + ")"
+							}
+							q := fmt.Sprintf("%s { ev(id: \"x\") { name @%s(if: %s) ... @%s(if: %s) { n } } }", head, d1, s1.text, d2, s2.text)
+							keep := func(d string, v bool) bool { return (d == "skip") != v }
+							want := map[string]interface{}{}
+							if keep(d1, s1.val) {
+								want["name"] = "one"
+							}
+							if keep(d2, s2.val) {
+								want["n"] = 1
+							}
+							h := newC19H(false)
+							var res map[string]interface{}
+							var cnt int
+							var perr error
+							pi := core.Safe(func() {
+								if prepared {
+									exe, err := h.root.ParseExecutableString(q)
+									if err != nil {
+										panic(core.EngineError{Msg: "C09 subscription request refused: " + err.Error()})
+									}
+									var rerr error
+									if res, rerr = h.root.ResolveExecutable(exe, "", vars); rerr != nil {
+										res = map[string]interface{}{"errors": ggql.FormErrorsResult(rerr)}
+									}
+								} else {
+									res = h.root.ResolveString(q, "", vars)
+								}
+								cnt, perr = h.root.AddEvent("x", &c19EvRes{map[string]interface{}{"name": "one", "n": 1}})
+							})
+							detail := map[string]interface{}{"request": q, "vars": vars, "prepared": prepared, "subscribe_response": res, "log": h.log, "want_payload": want}
+							attrs := map[string]string{"part": "subscription-event", "d1": d1 + ":" + s1.name, "d2": d2 + ":" + s2.name}
+							switch {
+							case pi != nil:
+								c.Violation("panic", map[string]string{"site": pi.Site, "class": pi.Class}, detail)
+							case res["errors"] != nil:
+								detail["diff"] = "the subscription request was refused"
+								c.Violation("subscription-refused", attrs, detail)
+							case cnt != 1 || perr != nil:
+								detail["diff"] = fmt.Sprintf("publish: matched %d, error %v", cnt, perr)
+								c.Outcome("event-error")
+								c.Violation("event-diff", attrs, detail)
+							default:
+								wantLine := "send:1:" + string(toJSON(world.Canon(map[string]interface{}{"ev": want})))
+								got := ""
+								for _, l := range h.log {
+									if strings.HasPrefix(l, "send:") {
+										got = l
+									}
+								}
+								// the payload may or may not be wrapped in the field name: compare the innermost object
+								if got != wantLine && got != "send:1:"+string(toJSON(world.Canon(want))) && got != "send:1:"+string(toJSON(world.Canon(map[string]interface{}{"data": map[string]interface{}{"ev": want}}))) {
+									detail["diff"] = "payload " + got + ", want " + wantLine
+									c.Outcome("event-diff")
+									c.Violation("event-diff", attrs, detail)
+								} else {
+									c.Outcome("event-agree")
+								}
+							}
+						}
+					}
+				}
+			}
+		}
+	}
+	c.R.Bound = "complete table 49 x 2 x 3 x 3 x configurations; the same for selections directly on a union / interface container and for __typename; the selection written twice (9 x 9 directive states x 3 kinds x 2 spacings); + all ordered pairs of 9 variable maps (supplied / omitted) on one parsed executable; + the payload of a subscription event: 2 directives x 7 condition sources, squared, parsed afresh and prepared"
 }
